@@ -1,4 +1,4 @@
-import StamModel.StamqlQ
+import StamModel.StamqlA
 import StamModel.Driver.Tv
 open Stam
 namespace Driver
@@ -126,6 +126,25 @@ partial def showQ : QL.Q → String
     s!"(S {if opt then 1 else 0} {String.ofList ty.upper} {n} [" ++ "; ".intercalate (cs.map showCn) ++ "] {" ++
       " ".intercalate (subs.map showQ) ++ "})"
 
+def showAVal : QL.AVal → String
+  | .null => "n" | .bool b => if b then "b1" else "b0" | .int z => s!"i{z}" | .float l => "f" ++ String.ofList l | .str s => "s" ++ hexOf s
+
+def showAsg : QL.Asg → String
+  | .id s => "id:" ++ hexOf s
+  | .data set key v => s!"data:{hexOf set}:{hexOf key}:{showAVal v}"
+  | .target n off => s!"target:{hexOf n}:{showOff off}"
+  | .complex k => "complex:" ++ (match k with | .comp => "composite" | .multi => "multi" | .dir => "directional")
+
+/-- canonical rendering of a query of any of the three types -/
+def showQQ : QL.QQ → String
+  | .select q => showQ q
+  | .add name asgs subs =>
+    let n := match name with | some n => hexOf n | none => "~"
+    s!"(A {n} [" ++ "; ".intercalate (asgs.map showAsg) ++ "] {" ++ " ".intercalate (subs.map showQ) ++ "})"
+  | .delete name subs =>
+    let n := match name with | some n => hexOf n | none => "~"
+    "(D " ++ n ++ " {" ++ " ".intercalate (subs.map showQ) ++ "})"
+
 /-- the external functions for a query line: `bad` lists (hex, comma separated) the strings `Regex::new` refuses -/
 def extOf (bad : String) : QL.Ext :=
   let badList := if bad = "-" then [] else (bad.splitOn ",").filterMap unhex
@@ -166,10 +185,12 @@ def ql (args : List String) : String :=
   | ["q", h, bad] =>
     match unhex h with
     | some s =>
-      match QL.parseQuery (extOf bad) s with
-      | .ok (q, r) =>
-        let printed := match QL.printQ (fun n => (toString n).toList) q with | some t => hexOf t | none => "~"
-        s!"ok | {showQ q} | {hexOf r} | {printed}"
+      match QL.parseQueryAll (extOf bad) s with
+      | .ok (qq, r) =>
+        let printed := match qq with
+          | .select q => (match QL.printQ (fun n => (toString n).toList) q with | some t => hexOf t | none => "~")
+          | _ => "~"
+        s!"ok | {showQQ qq} | {hexOf r} | {printed}"
       | .err m => if m = "unmodelled" then "skip-unmodelled" else if m = "fuel" then "fuel" else "err"
       | .panic m => "panic:" ++ m
     | none => "bad-op"
